@@ -755,7 +755,11 @@ class Extractor:
             elif k == 'flagsenum':
                 self.emit_flags_enum(node)
             elif k == 'mod':
-                self.out.add('pub mod %s {\nuse super::*;\nuse vstd::prelude::*;\n' % node.args[0], ('glue',))
+                if 'noglob' in node.args:
+                    # scope as in the real module: only the names listed in the unit are imported
+                    self.out.add('pub mod %s {\nuse vstd::prelude::*;\n' % node.args[0], ('glue',))
+                else:
+                    self.out.add('pub mod %s {\nuse super::*;\nuse vstd::prelude::*;\n' % node.args[0], ('glue',))
                 self.process(node.children)
                 self.out.add('}\n\n', ('glue',))
             elif k == 'fn' or k == 'stub':
@@ -786,7 +790,7 @@ class Extractor:
             cl = R.match_close(body, m, op)
             inner = self.strip_comments(body[op:cl + 1])
             self.log('R12', rel, R.line_of(sf.text, it.head_start), 'flags! enum %s -> plain enum with the same variants and discriminants' % name)
-            self.out.add('#[derive(Clone, Copy, PartialEq, Eq, Structural)]\npub enum %s ' % name, ('glue',))
+            self.out.add('#[derive(Debug, Clone, Copy, PartialEq, Eq, Structural)]\npub enum %s ' % name, ('glue',))
             self.out.add(inner + '\n\n', ('src', rel, it.head_start + op, name))
             return
         raise LostAnchor('flags! enum %s not found in %s' % (name, rel))
